@@ -23,7 +23,7 @@ _ALONE = {}
 _BUDGET = {"t_end": None}
 
 
-def start_budget(tier, quick_s=35, thorough_s=420):
+def start_budget(tier, quick_s=35, thorough_s=240):
     import time
     _BUDGET["t_end"] = time.time() + (quick_s if tier == "quick" else thorough_s)
 
@@ -507,7 +507,7 @@ def shard_aged(arg):
     from ..lib import IBAN, SchwiftyException
     rng = random.Random(f"{seed}:C14:aged:{i}")
     rec = Rec()
-    start_budget(tier, quick_s=10, thorough_s=300)
+    start_budget(tier, quick_s=10, thorough_s=150)
     g, o = gen(), oracle()
     ccs = o.countries()
     n_burst = 2600
@@ -576,7 +576,7 @@ def shard_cold(arg):
     rec = Rec()
     state()
     zyg = Zygote()
-    t_end = time.time() + (20 if tier == "quick" else 300)
+    t_end = time.time() + (20 if tier == "quick" else 180)
     try:
         # one list of pairs per seed, dealt out to the 16 shards (so that every kind of pair gets its share of the budget)
         common = random.Random(f"{seed}:C14:cold:pairs")
